@@ -1,10 +1,23 @@
 //! C17 — stream framing is independent of how the bytes are chunked.
 //!
-//! Observation point: `TcpStream::from_stream(SimTcp, peer)` polled by hand as a `Stream`; outbound
+//! Observation point: `TcpStream::from_stream(<socket>, peer)` polled by hand as a `Stream`; outbound
 //! messages pushed through its `BufDnsStreamHandle`. The scripted socket models availability
 //! boundaries on the inbound byte stream, acceptance boundaries on the outbound byte stream,
 //! would-block (waker called at once, or kept and fired later by the driver) before any boundary
 //! and before flush, and an orderly close by the peer at any stream offset.
+//!
+//! Socket flavours (`Case::sock` × `Case::vectored`), same scripts, same oracle:
+//!  * `direct` — `SimTcp` implements hickory's `DnsTcpStream` (futures-io traits) itself, with or
+//!    without writev;
+//!  * `tokio`  — the script sits behind TOKIO's `AsyncRead + AsyncWrite` (`tsock.rs`) and reaches
+//!    `TcpStream` through `hickory_net::runtime::iocompat::AsyncIoTokioAsStd`, the adapter every
+//!    tokio / rustls stream goes through in production (`ReadBuf` translation, `poll_write` /
+//!    `poll_write_vectored` / `is_write_vectored`, flush, shutdown). `vectored == false`: the
+//!    socket has plain `poll_write` only (tokio's provided `poll_write_vectored`), so the length
+//!    prefix and the body are separate socket calls, each of which may accept k bytes or
+//!    would-block; `vectored == true`: `is_write_vectored()` and a gathering `poll_write_vectored`.
+//!
+//! Part T (`idle.rs`): the server's read stack `TimeoutStream<TcpStream<..>>` under virtual time.
 //!
 //! Oracle (reference = the list of message lengths the case was built from, nothing of hickory):
 //!  * items     — the `Ok` items are exactly the frames that lie completely before the close
@@ -23,18 +36,23 @@
 //! when the peer closes are still written (only the prefix rule applies after End/Err); flush
 //! placement (counted only); write errors (not scripted).
 
+mod idle;
 mod simnet;
+mod tsock;
 
 use std::sync::{Arc, Mutex};
 use std::task::{Context, Poll};
 
 use futures::stream::StreamExt;
+use hickory_net::runtime::iocompat::AsyncIoTokioAsStd;
+use hickory_net::runtime::DnsTcpStream;
 use hickory_net::tcp::TcpStream;
 use hickory_net::DnsStreamHandle;
 use hickory_proto::op::SerialMessage;
 use serde_json::{json, Value};
 
 use simnet::{FlagWaker, ReadEnd, SimTcp, Step, TcpState};
+use tsock::{SimTokioPlain, SimTokioVec};
 use vh::mon::{self, Ctx, Reporter};
 use vh::prng::{fnv64, Rng};
 
@@ -47,8 +65,36 @@ fn peer() -> std::net::SocketAddr {
 // ---------------------------------------------------------------------------------------------
 // case
 
+/// how the scripted socket reaches `TcpStream`
+#[derive(Clone, Copy, Debug, Default, PartialEq, Eq)]
+pub enum Sock {
+    /// `SimTcp: DnsTcpStream` (futures-io traits) handed to `TcpStream` as it is
+    #[default]
+    Direct,
+    /// tokio `AsyncRead + AsyncWrite` wrapped in `AsyncIoTokioAsStd`
+    Tokio,
+}
+
+impl Sock {
+    pub fn name(self) -> &'static str {
+        match self {
+            Sock::Direct => "direct",
+            Sock::Tokio => "tokio",
+        }
+    }
+    pub fn from_name(s: &str) -> Sock {
+        if s == "tokio" {
+            Sock::Tokio
+        } else {
+            Sock::Direct
+        }
+    }
+}
+
 #[derive(Clone, Debug, Default)]
 struct Case {
+    /// discriminator of the socket flavour (absent in old witnesses = direct)
+    sock: Sock,
     /// lengths of the messages the peer sends
     inbound: Vec<usize>,
     /// stream offset at which the peer closes (None: connection stays open)
@@ -70,14 +116,24 @@ struct Case {
 
 impl Case {
     fn to_json(&self) -> Value {
-        json!({"inbound": self.inbound, "close": self.close, "rsteps": self.rsteps, "outbound": self.outbound,
+        json!({"kind": "framing", "sock": self.sock.name(), "inbound": self.inbound, "close": self.close, "rsteps": self.rsteps, "outbound": self.outbound,
                "send_at": self.send_at, "wsteps": self.wsteps, "fsteps": self.fsteps, "vectored": self.vectored,
                "drop_handle": self.drop_handle})
+    }
+    /// "direct-writev" | "direct-plain" | "tokio-vec" | "tokio-plain"
+    fn flavour(&self) -> &'static str {
+        match (self.sock, self.vectored) {
+            (Sock::Direct, true) => "direct-writev",
+            (Sock::Direct, false) => "direct-plain",
+            (Sock::Tokio, true) => "tokio-vec",
+            (Sock::Tokio, false) => "tokio-plain",
+        }
     }
     fn from_json(v: &Value) -> Case {
         let us = |k: &str| -> Vec<usize> { v[k].as_array().map(|a| a.iter().filter_map(|x| x.as_u64()).map(|x| x as usize).collect()).unwrap_or_default() };
         let is = |k: &str| -> Vec<i64> { v[k].as_array().map(|a| a.iter().filter_map(|x| x.as_i64()).collect()).unwrap_or_default() };
         Case {
+            sock: Sock::from_name(v["sock"].as_str().unwrap_or("direct")),
             inbound: us("inbound"),
             close: v["close"].as_u64().map(|x| x as usize),
             rsteps: is("rsteps"),
@@ -210,7 +266,15 @@ fn run_case(c: &Case) -> Obs {
         st.max_calls = 2 * (total + outl.wire.len()) + 4 * (c.rsteps.len() + c.wsteps.len() + c.fsteps.len()) + 8 * c.outbound.len() + 64;
         st.max_written = outl.wire.len() + 8;
     }
-    let (mut stream, handle) = TcpStream::from_stream(SimTcp(state.clone()), peer());
+    match (c.sock, c.vectored) {
+        (Sock::Direct, _) => drive(c, SimTcp(state.clone()), state, &outl, limit),
+        (Sock::Tokio, true) => drive(c, AsyncIoTokioAsStd(SimTokioVec(state.clone())), state, &outl, limit),
+        (Sock::Tokio, false) => drive(c, AsyncIoTokioAsStd(SimTokioPlain(state.clone())), state, &outl, limit),
+    }
+}
+
+fn drive<S: DnsTcpStream>(c: &Case, sock: S, state: Arc<Mutex<TcpState>>, outl: &Layout, limit: usize) -> Obs {
+    let (mut stream, handle) = TcpStream::from_stream(sock, peer());
     let mut handle = Some(handle);
     let (flag, waker) = FlagWaker::new();
     let mut cx = Context::from_waker(&waker);
@@ -458,6 +522,50 @@ fn observe(rep: &mut Reporter, c: &Case, o: &Obs) {
             }
         }
     }
+    // socket flavour
+    rep.count(&format!("sock/{}", c.flavour()));
+    if c.sock == Sock::Tokio {
+        rep.add("tokio_read_calls", st.reads.len() as u64);
+        rep.add("tokio_read_short", st.reads.iter().filter(|&&(_, n, bl)| n < bl).count() as u64);
+        rep.add("tokio_eof_reads", st.eof_reads as u64);
+        rep.add("tokio_read_pending", st.read_pendings as u64);
+        rep.add("tokio_write_pending", st.write_pendings as u64);
+        rep.add("tokio_flush_pending", st.flush_pendings as u64);
+        if st.written.len() == total_out && total_out > 0 {
+            rep.count(&format!("outbound_complete/{}", c.flavour()));
+        }
+        if c.vectored {
+            for k in &st.wcalls {
+                let off: usize = k.offered.iter().sum();
+                if k.vectored && k.accepted > k.offered[0] && k.accepted < off {
+                    rep.count("tokio_vec_cross_partial");
+                }
+                if k.vectored && k.accepted > 0 && k.accepted < k.offered[0] {
+                    rep.count("tokio_vec_prefix_partial");
+                }
+            }
+        } else {
+            // plain poll_write only: the length prefix and the body are separate socket calls
+            for k in &st.wcalls {
+                if let Some(&(s0, _)) = outf.iter().find(|f| k.at >= f.0 && k.at < f.0 + 2) {
+                    if k.at + k.accepted < s0 + 2 {
+                        rep.count("tokio_plain_prefix_partial");
+                    } else {
+                        rep.count("tokio_plain_prefix_completed_by_one_call");
+                    }
+                }
+            }
+            // would-block exactly between the (completely accepted) length prefix and the body
+            let n = st.wpend_at.iter().filter(|&&p| outf.iter().any(|f| f.0 + 2 == p)).count();
+            if n > 0 {
+                rep.count("tokio_plain_pending_between_prefix_and_body_cases");
+                rep.add("tokio_plain_pending_between_prefix_and_body", n as u64);
+            }
+            if st.wpend_at.iter().any(|&p| outf.iter().any(|f| f.0 + 1 == p)) {
+                rep.count("tokio_plain_pending_inside_prefix_cases");
+            }
+        }
+    }
     rep.add("write_pending", st.write_pendings as u64);
     rep.add("flush_pending", st.flush_pendings as u64);
     rep.add("flushes", st.flushes as u64);
@@ -491,9 +599,37 @@ fn check(rep: &mut Reporter, c: &Case) {
     observe(rep, c, &o);
     let vs = judge(c, &o);
     for v in vs {
-        rep.violation(v.rule, &v.sig, c.to_json(), v.expected, v.observed);
+        // same clause, same structural situation, but the bytes went through the tokio adapter
+        let sig = if c.sock == Sock::Tokio { format!("{}|via-tokio-adapter", v.sig) } else { v.sig };
+        rep.violation(v.rule, &sig, c.to_json(), v.expected, v.observed);
     }
     rep.sample(|| json!({"case": c.to_json(), "terminal": o.terminal.kind(), "items": o.items.len(), "polls": o.polls}));
+}
+
+/// `check` + per-family / per-flavour bookkeeping
+fn check_in(rep: &mut Reporter, family: &str, c: &Case) {
+    check(rep, c);
+    rep.count(&format!("{family}_cases"));
+    rep.count(&format!("{family}_cases/{}", c.sock.name()));
+}
+
+/// socket flavour of the i-th repetition of an enumerated composition: alternate, so that every
+/// composition runs through both
+fn sock_of_rep(i: u64) -> Sock {
+    if i % 2 == 1 {
+        Sock::Tokio
+    } else {
+        Sock::Direct
+    }
+}
+
+/// socket flavour of a randomly generated case
+fn random_sock(r: &mut Rng, c: &mut Case) {
+    if r.bool() {
+        c.sock = Sock::Tokio;
+        // plain-`poll_write`-only and gathering tokio sockets in equal shares
+        c.vectored = r.bool();
+    }
 }
 
 // ---------------------------------------------------------------------------------------------
@@ -695,8 +831,15 @@ fn main() {
     let mut rep = Reporter::new(&ctx);
 
     if let Some(w) = ctx.replay_case() {
-        let c = Case::from_json(&w["case"]);
-        check(&mut rep, &c);
+        // discriminator: "kind" ("framing" when absent: witnesses written before part T existed)
+        if w["case"]["kind"].as_str() == Some("timeout") {
+            let c = idle::TCase::from_json(&w["case"]);
+            let mut runner = idle::TRunner::new();
+            idle::check_t(&mut rep, &mut runner, &c);
+        } else {
+            let c = Case::from_json(&w["case"]);
+            check(&mut rep, &c);
+        }
         rep.replay_finish();
     }
 
@@ -724,6 +867,43 @@ fn main() {
     rep.must("terminal/pending", 5_000);
     rep.must("outbound_complete", 5_000);
     rep.must("nontrivial_cases", 20_000);
+    // socket flavours: every schedule family through the tokio adapter as well
+    for (k, min) in [("direct-writev", 200_000), ("direct-plain", 200_000), ("tokio-plain", 200_000), ("tokio-vec", 200_000)] {
+        rep.must(&format!("sock/{k}"), min);
+    }
+    for (k, min) in [("w1", 300_000), ("w2a", 5_000), ("w2b", 150_000), ("w3a", 70_000), ("w3b", 100_000)] {
+        rep.must(&format!("{k}_cases/tokio"), min);
+        rep.must(&format!("{k}_cases/direct"), min);
+    }
+    rep.must("tokio_plain_pending_between_prefix_and_body_cases", 50_000);
+    rep.must("tokio_plain_pending_inside_prefix_cases", 50_000);
+    rep.must("tokio_plain_prefix_partial", 150_000);
+    rep.must("tokio_plain_prefix_completed_by_one_call", 400_000);
+    rep.must("tokio_vec_cross_partial", 80_000);
+    rep.must("tokio_vec_prefix_partial", 150_000);
+    rep.must("tokio_read_short", 10_000_000);
+    rep.must("tokio_read_pending", 10_000_000);
+    rep.must("tokio_write_pending", 10_000_000);
+    rep.must("tokio_flush_pending", 200_000);
+    rep.must("tokio_eof_reads", 300_000);
+    rep.must("outbound_complete/tokio-plain", 200_000);
+    rep.must("outbound_complete/tokio-vec", 200_000);
+    // part T
+    rep.must("t_cases", 50_000);
+    rep.must("t_sock/tokio", 30_000);
+    rep.must("t_sock/direct", 10_000);
+    rep.must("t_item_after_cumulative_gap_over_timeout", 20_000);
+    rep.must("t_timeout_expected_and_seen", 30_000);
+    for k in 0..3 {
+        rep.must(&format!("t_timeout_expected_and_seen/after-{k}-items"), 5_000);
+    }
+    for (k, min) in [("frame", 20_000), ("in-prefix", 1_500), ("prefix-body", 1_500), ("in-body", 6_000)] {
+        rep.must(&format!("t_timeout_stalled/{k}"), min);
+    }
+    rep.must("t_clean_end", 6_000);
+    rep.must("t_close_inside_frame_err", 2_500);
+    rep.must("t_open_no_timer_pending", 1_000);
+    rep.must("t_timer_disabled", 2_500);
 
     let reps = if ctx.is_thorough() { ((48.0 * ctx.scale) as u64).max(1) } else { ((3.0 * ctx.scale) as u64).max(1) };
 
@@ -743,14 +923,17 @@ fn main() {
                     if !ctx.mine(idx) {
                         continue;
                     }
-                    for _ in 0..reps {
+                    for i in 0..reps {
                         let mut c = Case { inbound: seq.clone(), close, ..Default::default() };
                         let b = if cut == 0 { vec![] } else { bounds_from_mask(cut, mask) };
                         let p = pend_level(&mut r);
                         c.rsteps = with_pends(&mut r, &b, p);
                         random_outbound(&mut r, &mut c, false);
-                        check(&mut rep, &c);
-                        rep.count("w1_cases");
+                        c.sock = sock_of_rep(idx + i);
+                        if c.sock == Sock::Tokio {
+                            c.vectored = r.bool();
+                        }
+                        check_in(&mut rep, "w1", &c);
                     }
                 }
             }
@@ -816,8 +999,8 @@ fn main() {
                 let p = pend_level(&mut r);
                 c.rsteps = with_pends(&mut r, &b, p);
                 random_outbound(&mut r, &mut c, true);
-                check(&mut rep, &c);
-                rep.count("w2a_cases");
+                random_sock(&mut r, &mut c);
+                check_in(&mut rep, "w2a", &c);
             }
         }
     }
@@ -844,8 +1027,8 @@ fn main() {
             let p = pend_level(&mut r);
             c.rsteps = with_pends(&mut r, &b, p);
             random_outbound(&mut r, &mut c, false);
-            check(&mut rep, &c);
-            rep.count("w2b_cases");
+            random_sock(&mut r, &mut c);
+            check_in(&mut rep, "w2b", &c);
         }
     }
 
@@ -863,8 +1046,8 @@ fn main() {
                     if !ctx.mine(idx) {
                         continue;
                     }
-                    for _ in 0..reps {
-                        let mut c = Case { outbound: seq.clone(), vectored, ..Default::default() };
+                    for i in 0..reps {
+                        let mut c = Case { outbound: seq.clone(), vectored, sock: sock_of_rep(idx / 2 + i), ..Default::default() };
                         c.send_at = (0..seq.len()).map(|_| if r.chance(3, 4) { 0 } else { r.usize_below(5) }).collect();
                         c.send_at.sort_unstable();
                         let b = bounds_from_mask(n, mask);
@@ -873,8 +1056,7 @@ fn main() {
                         c.fsteps = flush_script(&mut r, seq.len());
                         c.drop_handle = r.chance(1, 4);
                         random_inbound(&mut r, &mut c);
-                        check(&mut rep, &c);
-                        rep.count("w3a_cases");
+                        check_in(&mut rep, "w3a", &c);
                     }
                 }
             }
@@ -909,8 +1091,18 @@ fn main() {
             c.fsteps = flush_script(&mut r, seq.len());
             c.drop_handle = r.chance(1, 4);
             random_inbound(&mut r, &mut c);
-            check(&mut rep, &c);
-            rep.count("w3b_cases");
+            random_sock(&mut r, &mut c);
+            check_in(&mut rep, "w3b", &c);
+        }
+    }
+
+    // ---- T: the server's read stack TimeoutStream<TcpStream<..>> with scripted arrival instants
+    {
+        let mut r = ctx.rng("t");
+        let mut runner = idle::TRunner::new();
+        for _ in 0..ctx.budget(40_000, 1_500_000) {
+            let c = idle::gen_tcase(&mut r);
+            idle::check_t(&mut rep, &mut runner, &c);
         }
     }
 
